@@ -44,6 +44,21 @@ func (e *Engine) collectWrites(fc *FnCtx, fn *ssa.Function, ws *writeSet, seen m
 		e.libWrites(fc, fn.Signature, ws)
 		return
 	}
+	// ghost variables assigned by point clauses of this function's own contract
+	if con := e.contracts[e.fnName(fn)]; con != nil {
+		for _, kind := range []string{"before_call", "after_call", "after_assign", "at_exit"} {
+			for _, c := range con.Extra[kind] {
+				if i := strings.Index(c.Text, ": ghost "); i >= 0 {
+					rest := c.Text[i+len(": ghost "):]
+					if j := strings.Index(rest, "="); j > 0 {
+						if n := strings.TrimSpace(rest[:j]); e.ghosts[n] != nil {
+							ws.keys[fc.ghostKey(n)] = true
+						}
+					}
+				}
+			}
+		}
+	}
 	var rootKey func(v ssa.Value) string
 	rootKey = func(v ssa.Value) string {
 		switch x := v.(type) {
